@@ -207,7 +207,7 @@ package chain
 //@ func (*Chain).verifyLFBTicket
 //@   prop C41
 //@   requires c != nil && lfbt != nil
-//@   ensures[signer-is-current-sharder] result ==> lfbt.SharderID in asptr(curMB(c), block.MagicBlock).Sharders.NodesMap
+//@   ensures[signer-is-current-sharder] result ==> lfbt.SharderID in asptr(curMB(c), MagicBlock).Sharders.NodesMap
 //@   ensures[signature-verified] result ==> $sigChecked
 
 //@ func (*Chain).GetMagicBlockNoOffset
